@@ -382,6 +382,7 @@ def run(ck):
         % (nhist, nmax))
     disagreements = []
     ctor_forms(ck, disagreements)
+    drift_histories(ck)
     hists = [gen_history(rng, nmax, with_error=(h % 8 == 7)) for h in range(nhist)]
     sp_hists, sp_skipped = special_histories(rng)
     hists += sp_hists
@@ -493,6 +494,28 @@ def run(ck):
     if not ok and not ck.violations:
         fail_once(ck, "lean-build", "Lean obligations of C10 no longer check: %r" % info["failed_modules"],
                   {"kind": "proof-obligation", "theorem": info["failed_modules"], "errors": info["errors"]}, no_failing_input=True)
+
+
+def drift_histories(ck):
+    """long runs of updates that each change one parameter by less than any tolerance used inside the class (oracle only:
+    the object must describe the parameters it reports, however they were reached)"""
+    rng = ck.rng
+    n = 0
+    for name in ("a", "b", "c", "alpha", "beta", "gamma"):
+        for via in ("prop", "setpar"):
+            cell = [rng.uniform(3, 12), rng.uniform(3, 12), rng.uniform(3, 12), rng.uniform(70, 110), rng.uniform(70, 110), rng.uniform(70, 110)]
+            ops = [{"op": "newpar", "abcABG": cell, "rot": None},
+                   {"op": "drift", "i": 0, "name": name, "delta": rng.choice([5e-9, -4e-9, 9e-10, 3e-9]), "count": 3000 if ck.tier == "quick" else 20000, "via": via}]
+            if rng.random() < 0.5:
+                ops.insert(1, {"op": "copy", "i": 0})
+            n += 1
+            ck.coverage["evaluations"] += 1
+            r = run_oracle(ops)
+            if r is not None:
+                fail_once(ck, "history:drift:%s" % name, "after %d updates of %s by %g each (%s): %s: expected %r, observed %r" % (
+                    ops[-1]["count"], name, ops[-1]["delta"], via, r[1], r[2], r[3]),
+                    {"kind": "history", "history": ops, "step": r[0], "quantity": r[1], "expected": r[2], "observed": r[3]})
+    ck.coverage["drift_histories"] = n
 
 
 def shrink_exception(ops):
